@@ -1986,6 +1986,8 @@ struct TcpConnect {
     sh: Arc<Mutex<TcpShared>>,
     ch: Arc<Mutex<Chooser>>,
     allow_refuse: bool,
+    /// refusing is the default answer (accepting is the deviation)
+    refuse_default: bool,
 }
 impl std::fmt::Debug for TcpConnect {
     fn fmt(&self, f: &mut std::fmt::Formatter<'_>) -> std::fmt::Result {
@@ -1997,7 +1999,7 @@ impl AsyncConnect for TcpConnect {
     type Connection = MockStream;
     type Fut = Pin<Box<dyn Future<Output = Result<MockStream, io::Error>> + Send + Sync>>;
     fn connect(&self) -> Self::Fut {
-        let refuse = self.allow_refuse && self.ch.lock().unwrap().choose(2, "tcp-connect") == 1;
+        let refuse = self.allow_refuse && ((self.ch.lock().unwrap().choose(2, "tcp-connect") == 1) != self.refuse_default);
         let mut sh = self.sh.lock().unwrap();
         sh.connect_calls += 1;
         if refuse {
@@ -2023,9 +2025,25 @@ struct MultiCfg {
     /// by default the second request is submitted only after the first has
     /// been answered and 64 s (> the stream idle timeout) have passed
     gap: bool,
+    /// fine-grained time: 1 s steps, datagram read timeout 3 s, response
+    /// timeout `rt_s`, reconnect back-off draws are environment choices,
+    /// exact per-request deadlines
+    fine: bool,
+    rt_s: u64,
+    /// by default the peer ignores this many datagram transmissions of a request
+    udp_lost: usize,
+    /// by default a stream connect is refused
+    tcp_refuse_default: bool,
+    /// by default the stream peer closes the connection once it has read a request
+    tcp_close_default: bool,
 }
 impl MultiCfg {
     fn json(&self) -> Value {
+        if self.fine {
+            return json!({"fine_time": true, "datagram_first": self.dgram_first, "plan": self.plan, "udp_default_reply_truncated": self.udp_tc, "udp_max_retries": self.udp_retries, "udp_transmissions_lost_by_default": self.udp_lost,
+                "response_timeout_s": self.rt_s, "tcp_connect_may_be_refused": self.allow_refuse, "tcp_connect_refused_by_default": self.tcp_refuse_default, "stream_peer_closes_after_request_by_default": self.tcp_close_default,
+                "stream_peer_silent_by_default": self.tcp_silent});
+        }
         if self.dgram_first {
             json!({"plan": self.plan, "udp_default_reply_truncated": self.udp_tc, "udp_max_retries": self.udp_retries, "tcp_connect_may_be_refused": self.allow_refuse, "stream_peer_silent_by_default": self.tcp_silent, "idle_gap_before_second_request": self.gap})
         } else {
@@ -2033,6 +2051,22 @@ impl MultiCfg {
         }
     }
 }
+
+/// Field values of the coarse-time cases (64 s steps).
+const MULTI_COARSE: MultiCfg = MultiCfg {
+    dgram_first: false,
+    plan: Vec::new(),
+    udp_tc: false,
+    udp_retries: 0,
+    allow_refuse: false,
+    tcp_silent: false,
+    gap: false,
+    fine: false,
+    rt_s: 200,
+    udp_lost: 0,
+    tcp_refuse_default: false,
+    tcp_close_default: false,
+};
 
 const MS_TICK: Duration = Duration::from_secs(64);
 const MS_UDP_TIMEOUT: Duration = Duration::from_secs(60);
@@ -2062,29 +2096,49 @@ async fn run_multi(g: &Global, cfg: &MultiCfg, ch: Arc<Mutex<Chooser>>) {
     let tname = if cfg.dgram_first { "dgram_stream" } else { "multi_stream" };
     let mut core = Core::new(g, tname, cfg.json(), ch.clone(), &cfg.plan);
     let tsh = Arc::new(Mutex::new(TcpShared::default()));
-    let tcp = TcpConnect { sh: tsh.clone(), ch: ch.clone(), allow_refuse: cfg.allow_refuse };
+    let tcp = TcpConnect { sh: tsh.clone(), ch: ch.clone(), allow_refuse: cfg.allow_refuse, refuse_default: cfg.tcp_refuse_default };
     let dsh = Arc::new(Mutex::new(DgShared::default()));
+    let tick = if cfg.fine { Duration::from_secs(1) } else { MS_TICK };
+    let udp_to = if cfg.fine { Duration::from_secs(3) } else { MS_UDP_TIMEOUT };
+    let rt = if cfg.fine { Duration::from_secs(cfg.rt_s) } else { MS_RESPONSE_TIMEOUT };
+    if cfg.fine {
+        // the reconnect back-off draws of this execution are environment choices
+        RAND_CH.with(|c| *c.borrow_mut() = Some(ch.clone()));
+    }
     let mut msc = multi_stream::Config::default();
-    msc.set_response_timeout(MS_RESPONSE_TIMEOUT);
+    msc.set_response_timeout(rt);
+    if msc.response_timeout() != rt {
+        eprintln!("MACHINERY: multi_stream response timeout was trimmed");
+        std::process::exit(2);
+    }
     let conn: Box<dyn SendRequest<Rq>>;
     let transport;
     if cfg.dgram_first {
         let dgc = DgConnect { sh: dsh.clone(), ch: ch.clone(), current: core.current.clone(), faults: false };
         let mut dc = dgram::Config::new();
-        dc.set_read_timeout(MS_UDP_TIMEOUT);
+        dc.set_read_timeout(udp_to);
         dc.set_max_retries(cfg.udp_retries);
         let (c, t) = dgram_stream::Connection::<DgConnect, Rq>::with_config(dgc, tcp, dgram_stream::Config::from_parts(dc, msc));
         conn = Box::new(c);
         transport = t;
-        // time moves in 64 s steps, so each 60 s datagram attempt is noticed
-        // up to 4 s late: allow for that
-        core.budget = Some((MS_UDP_TIMEOUT + (MS_TICK - MS_UDP_TIMEOUT)) * (1 + cfg.udp_retries as u32) + MS_RESPONSE_TIMEOUT);
+        if !cfg.fine {
+            // time moves in 64 s steps, so each 60 s datagram attempt is noticed
+            // up to 4 s late: allow for that
+            core.budget = Some((MS_UDP_TIMEOUT + (MS_TICK - MS_UDP_TIMEOUT)) * (1 + cfg.udp_retries as u32) + MS_RESPONSE_TIMEOUT);
+        }
     } else {
         let (c, t) = multi_stream::Connection::<Rq>::with_config(tcp, msc);
         conn = Box::new(c);
         transport = t;
-        core.budget = Some(MS_RESPONSE_TIMEOUT);
+        if !cfg.fine {
+            core.budget = Some(MS_RESPONSE_TIMEOUT);
+        }
     }
+    // fine time: exact deadline of every request, and when its matching
+    // truncated datagram answer arrived
+    let mut deadline: Vec<Option<Instant>> = vec![None; cfg.plan.len()];
+    let mut tc_time: Vec<Option<Instant>> = vec![None; cfg.plan.len()];
+    let mut early_checked: Vec<bool> = vec![false; cfg.plan.len()];
     let mut conn = Some(conn);
     let mut tr = Some(Slot::new(transport.run()));
     let mut learnt: Vec<bool> = Vec::new();
@@ -2096,7 +2150,7 @@ async fn run_multi(g: &Global, cfg: &MultiCfg, ch: Arc<Mutex<Chooser>>) {
     let mut ticks = 0;
     let mut gap_done = false;
 
-    for _step in 0..64 {
+    for _step in 0..(if cfg.fine { 200 } else { 64 }) {
         let mut gap_tick = false;
         core.quiesce(&mut tr);
         if core.aborted {
@@ -2104,6 +2158,41 @@ async fn run_multi(g: &Global, cfg: &MultiCfg, ch: Arc<Mutex<Chooser>>) {
         }
         if cfg.dgram_first {
             dg_learn(&mut core, &dsh, &mut learnt);
+        }
+        if cfg.fine {
+            let now = Instant::now();
+            for i in 0..core.reqs.len() {
+                // datagram phase: (1 + retries) read timeouts from the first transmission
+                if cfg.dgram_first && deadline[i].is_none() && tc_time[i].is_none() {
+                    if let Some(s0) = core.reqs[i].start {
+                        deadline[i] = Some(s0 + udp_to * (1 + cfg.udp_retries as u32));
+                    }
+                }
+                if core.pending(i) {
+                    if let Some(d) = deadline[i] {
+                        if now >= d {
+                            deadline[i] = None;
+                            let tname2 = core.tname;
+                            core.violate(
+                                format!("C15|{tname2}|budget|request-pending-after-timeout-and-retry-budget"),
+                                format!("request {i} still pending at its deadline (datagram phase: (1+retries) x read timeout from the first transmission; stream phase: response_timeout {rt:?} from its start)"),
+                            );
+                        }
+                    }
+                }
+                // a stream attempt that follows a truncated answer has the full response timeout
+                if let (Some(t), Some(Res::Err(e)), false) = (tc_time[i], core.reqs[i].result.clone(), early_checked[i]) {
+                    early_checked[i] = true;
+                    if e == "StreamReadTimeout" && now < t + rt {
+                        core.violate(
+                            "C15|dgram_stream|truncated-answer|stream-attempt-timed-out-before-its-own-budget".into(),
+                            format!("request {i}: truncated datagram answer at +{:?}, Err(StreamReadTimeout) {:?} later although the stream response timeout is {rt:?}", t.duration_since(core.reqs[i].start.unwrap_or(t)), now.duration_since(t)),
+                        );
+                    } else {
+                        core.count("tc.stream-phase-error-not-early");
+                    }
+                }
+            }
         }
         let conns: Vec<Arc<Mutex<StreamState>>> = tsh.lock().unwrap().conns.clone();
         while fatal.len() < conns.len() {
@@ -2168,9 +2257,20 @@ async fn run_multi(g: &Global, cfg: &MultiCfg, ch: Arc<Mutex<Chooser>>) {
         if next_unsub.is_some() && !hold_submit {
             menu.push(MAct::Submit);
             default_kind = 0;
+        } else if !waiting.is_empty() && cfg.fine && {
+            let gd = dsh.lock().unwrap();
+            let r = waiting[0].req;
+            gd.socks.iter().filter(|s| s.owner == r && !s.sent.is_empty()).count() <= cfg.udp_lost
+        } {
+            // this transmission is lost: time passes
+            menu.push(MAct::Tick);
+            default_kind = 3;
         } else if !waiting.is_empty() {
             menu.push(MAct::Udp(0, udp_default));
             default_kind = 1;
+        } else if !open.is_empty() && cfg.tcp_close_default {
+            menu.push(MAct::TcpEof(entries[open[0]].conn));
+            default_kind = 5;
         } else if !open.is_empty() && !cfg.tcp_silent {
             menu.push(MAct::Tcp(open[0], RKind::Answer));
             default_kind = 2;
@@ -2215,7 +2315,9 @@ async fn run_multi(g: &Global, cfg: &MultiCfg, ch: Arc<Mutex<Chooser>>) {
         }
         for ci in 0..conns.len() {
             if live(ci) {
-                menu.push(MAct::TcpEof(ci));
+                if !(default_kind == 5 && ci == entries[open[0]].conn) {
+                    menu.push(MAct::TcpEof(ci));
+                }
                 menu.push(MAct::TcpShort(ci));
             }
         }
@@ -2241,6 +2343,9 @@ async fn run_multi(g: &Global, cfg: &MultiCfg, ch: Arc<Mutex<Chooser>>) {
                 core.count("action.submit");
                 if !cfg.dgram_first {
                     core.reqs[i].start = Some(Instant::now());
+                    if cfg.fine {
+                        deadline[i] = Some(Instant::now() + rt);
+                    }
                 }
                 if let Some(c) = conn.as_ref() {
                     core.submit(c, i);
@@ -2255,6 +2360,8 @@ async fn run_multi(g: &Global, cfg: &MultiCfg, ch: Arc<Mutex<Chooser>>) {
                 core.delivered.push(Delivered { bytes: msg.clone(), udp: true });
                 if core.pending(w.req) {
                     if kind == RKind::Tc {
+                        tc_time[w.req] = Some(Instant::now());
+                        deadline[w.req] = Some(Instant::now() + rt);
                         tc_expect.push((w.req, calls_now, tcp_frames_of[w.req]));
                     } else {
                         core.expect.push((w.req, msg.clone()));
@@ -2271,6 +2378,8 @@ async fn run_multi(g: &Global, cfg: &MultiCfg, ch: Arc<Mutex<Chooser>>) {
                 core.delivered.push(Delivered { bytes: msg.clone(), udp: true });
                 if core.pending(w.req) && answers(&msg, &[w.id], w.q).is_ok() {
                     if shp.tc {
+                        tc_time[w.req] = Some(Instant::now());
+                        deadline[w.req] = Some(Instant::now() + rt);
                         tc_expect.push((w.req, calls_now, tcp_frames_of[w.req]));
                     } else {
                         core.expect.push((w.req, msg.clone()));
@@ -2356,12 +2465,12 @@ async fn run_multi(g: &Global, cfg: &MultiCfg, ch: Arc<Mutex<Chooser>>) {
                     gap_done = true;
                 }
                 core.count("action.tick");
-                core.note(format!("virtual time advances by {MS_TICK:?}"));
+                core.note(format!("virtual time advances by {tick:?}"));
                 ticks += 1;
-                if ticks > 16 {
+                if ticks > (if cfg.fine { 60 } else { 16 }) {
                     break;
                 }
-                tokio::time::advance(MS_TICK).await;
+                tokio::time::advance(tick).await;
             }
             MAct::Cancel(i) => core.cancel(i),
             MAct::Finish => {
@@ -2988,25 +3097,41 @@ fn multi_cfgs() -> Vec<MultiCfg> {
                 // connect refusal only with a single caller (see assumptions)
                 let refuse: &[bool] = if plan.len() == 1 { &[false, true] } else { &[false] };
                 for &allow_refuse in refuse {
-                    v.push(MultiCfg { dgram_first: true, plan: plan.clone(), udp_tc, udp_retries, allow_refuse, tcp_silent: false, gap: false });
+                    v.push(MultiCfg { dgram_first: true, plan: plan.clone(), udp_tc, udp_retries, allow_refuse, tcp_silent: false, gap: false, ..MULTI_COARSE });
                 }
             }
         }
     }
-    v.push(MultiCfg { dgram_first: true, plan: vec![0], udp_tc: true, udp_retries: 1, allow_refuse: false, tcp_silent: true, gap: false });
+    v.push(MultiCfg { dgram_first: true, plan: vec![0], udp_tc: true, udp_retries: 1, allow_refuse: false, tcp_silent: true, gap: false, ..MULTI_COARSE });
     // multi_stream
     for plan in [vec![0], vec![0, 0], vec![0, 1]] {
         let refuse: &[bool] = if plan.len() == 1 { &[false, true] } else { &[false] };
         for &allow_refuse in refuse {
-            v.push(MultiCfg { dgram_first: false, plan: plan.clone(), udp_tc: false, udp_retries: 0, allow_refuse, tcp_silent: false, gap: false });
+            v.push(MultiCfg { dgram_first: false, plan: plan.clone(), udp_tc: false, udp_retries: 0, allow_refuse, tcp_silent: false, gap: false, ..MULTI_COARSE });
         }
     }
     // second request after the stream connection idled out: must reconnect
-    v.push(MultiCfg { dgram_first: false, plan: vec![0, 0], udp_tc: false, udp_retries: 0, allow_refuse: false, tcp_silent: false, gap: true });
-    v.push(MultiCfg { dgram_first: false, plan: vec![0, 1], udp_tc: false, udp_retries: 0, allow_refuse: false, tcp_silent: false, gap: true });
-    v.push(MultiCfg { dgram_first: true, plan: vec![0, 0], udp_tc: true, udp_retries: 0, allow_refuse: false, tcp_silent: false, gap: true });
-    v.push(MultiCfg { dgram_first: false, plan: vec![0], udp_tc: false, udp_retries: 0, allow_refuse: false, tcp_silent: true, gap: false });
-    v.push(MultiCfg { dgram_first: false, plan: vec![0, 0], udp_tc: false, udp_retries: 0, allow_refuse: false, tcp_silent: true, gap: false });
+    v.push(MultiCfg { dgram_first: false, plan: vec![0, 0], udp_tc: false, udp_retries: 0, allow_refuse: false, tcp_silent: false, gap: true, ..MULTI_COARSE });
+    v.push(MultiCfg { dgram_first: false, plan: vec![0, 1], udp_tc: false, udp_retries: 0, allow_refuse: false, tcp_silent: false, gap: true, ..MULTI_COARSE });
+    v.push(MultiCfg { dgram_first: true, plan: vec![0, 0], udp_tc: true, udp_retries: 0, allow_refuse: false, tcp_silent: false, gap: true, ..MULTI_COARSE });
+    v.push(MultiCfg { dgram_first: false, plan: vec![0], udp_tc: false, udp_retries: 0, allow_refuse: false, tcp_silent: true, gap: false, ..MULTI_COARSE });
+    // ---- fine-grained time (1 s steps, exact deadlines, back-off draws are choices)
+    // dgram_stream: the truncated answer comes on the 1st / 2nd / 3rd transmission
+    // (read timeout 3 s, stream response timeout 4 s), stream peer answering or silent
+    for udp_lost in [0usize, 1, 2] {
+        for tcp_silent in [false, true] {
+            v.push(MultiCfg { dgram_first: true, plan: vec![0], udp_tc: true, udp_retries: 2, fine: true, rt_s: 4, udp_lost, tcp_silent, ..MULTI_COARSE });
+        }
+    }
+    v.push(MultiCfg { dgram_first: true, plan: vec![0, 0], udp_tc: true, udp_retries: 2, fine: true, rt_s: 4, udp_lost: 1, ..MULTI_COARSE });
+    // multi_stream (response timeout 10 s): every connect refused / the peer
+    // closes after reading the request / the peer is silent
+    v.push(MultiCfg { plan: vec![0], fine: true, rt_s: 10, allow_refuse: true, tcp_refuse_default: true, ..MULTI_COARSE });
+    v.push(MultiCfg { plan: vec![0, 0], fine: true, rt_s: 10, allow_refuse: true, tcp_refuse_default: true, ..MULTI_COARSE });
+    v.push(MultiCfg { plan: vec![0], fine: true, rt_s: 10, tcp_close_default: true, ..MULTI_COARSE });
+    v.push(MultiCfg { plan: vec![0, 1], fine: true, rt_s: 10, tcp_close_default: true, ..MULTI_COARSE });
+    v.push(MultiCfg { plan: vec![0], fine: true, rt_s: 10, tcp_silent: true, ..MULTI_COARSE });
+    v.push(MultiCfg { dgram_first: false, plan: vec![0, 0], udp_tc: false, udp_retries: 0, allow_refuse: false, tcp_silent: true, gap: false, ..MULTI_COARSE });
     v
 }
 
@@ -3125,7 +3250,8 @@ fn main() {
             "redundant / load_balancer: upstreams are SendRequest mocks (2, in one case 3; in one load-balancer case 1 with max_burst 0); an upstream that 'never answers' fails the call with its own timeout after 2 s of virtual time; time moves in 400 ms steps; Err needs a failed upstream call of that caller, and with defer_transport_error set every upstream must have been tried and have failed; defer_refused / defer_servfail are not exercised; the probe decision and probe index are environment choices {0.5, 0.0, 0.999} through the verif_rand seam",
             "the private Queries table is driven only through the stream transport",
             "random request IDs (dgram) are read back from the bytes written; stale/wrong IDs sent by the mock are forced to differ from the current ID so the execution structure does not depend on the random draw",
-            "multi_stream/dgram_stream: the reconnect jitter draw is fixed to 0.5 through the verif_rand seam and virtual time advances in 64 s steps (>= any retry delay); connect refusal is offered only with a single caller (a second caller's NewConn inside the random error window would be nondeterministic)",
+            "multi_stream/dgram_stream, fine-time cases: 1 s steps, datagram read timeout 3 s (max_retries 2), multi_stream response timeout 4 s (dgram_stream) / 10 s (multi_stream); the peer by default loses 0/1/2 datagram transmissions before the truncated answer, refuses every connect, closes after reading the request, or stays silent; every reconnect back-off draw is an environment choice {0.5, 0.0, 0.999}; exact deadlines: datagram phase (1+retries) x read timeout from the first transmission, stream phase response_timeout from the matching truncated answer (dgram_stream) or from submission (multi_stream); a stream attempt that follows a truncated answer must not end in StreamReadTimeout before its own full response timeout",
+            "multi_stream/dgram_stream, coarse-time cases: the reconnect jitter draw is fixed to 0.5 through the verif_rand seam and virtual time advances in 64 s steps (>= any retry delay); connect refusal is offered only with a single caller (a second caller's NewConn inside the random error window would be nondeterministic)",
             "the caller index is carried in the Z/AD/CD header bits of the request (untouched by the transports, irrelevant for matching) so the mock maps frames to callers exactly even for identical questions",
             "mock sockets are in-memory; real sockets, TLS and kernel buffering are out of scope",
         ],
